@@ -319,11 +319,33 @@ func (g *progGen) loopCtl(iv string) string {
 	return ""
 }
 
+// loopCtl2: break/continue reached through and/or operands and nested scopes
+func (g *progGen) loopCtl2(iv string) string {
+	switch g.r.Intn(6) {
+	case 0:
+		return fmt.Sprintf("(let [z %s] (and (== z 1) (continue) 1))", iv)
+	case 1:
+		return fmt.Sprintf("(let [z %s] (or (< z 2) (break) 1))", iv)
+	case 2:
+		return fmt.Sprintf("(newScope (and (== %s 0) (continue)))", iv)
+	case 3:
+		return fmt.Sprintf("(letseq [z %s y z] (cond (== y 2) (break) (== y 0) (continue) 0))", iv)
+	case 4:
+		return fmt.Sprintf("(let [z %s] (let [y z] (or (!= y 1) (continue))))", iv)
+	}
+	return ""
+}
+
 func (g *progGen) loopStmt(d int) string {
 	iv := g.r.Pick([]string{"i", "j"})
 	k := g.r.Range(1, 3)
 	g.inLoop++
-	body := g.withLocal(iv, func() string { return g.loopCtl(iv) + " " + g.stmt(d+1) })
+	body := g.withLocal(iv, func() string {
+		if g.r.Chance(0.3) {
+			return g.loopCtl2(iv) + " " + g.stmt(d+1)
+		}
+		return g.loopCtl(iv) + " " + g.stmt(d+1)
+	})
 	g.inLoop--
 	return fmt.Sprintf("(for [(def %s 0) (< %s %d) (def %s (+ %s 1))] %s)", iv, iv, k, iv, iv, body)
 }
@@ -333,6 +355,9 @@ func (g *progGen) loopSum(d int) string {
 	k := g.r.Range(1, 3)
 	inner := g.withLocal("s", func() string {
 		return g.withLocal(iv, func() string {
+			if g.r.Chance(0.3) {
+				return g.loopCtl2(iv) + fmt.Sprintf(" (set s (+ s %s))", g.e(d+2))
+			}
 			return g.loopCtl(iv) + fmt.Sprintf(" (set s (+ s %s))", g.e(d+2))
 		})
 	})
@@ -360,7 +385,7 @@ func (g *progGen) nestedLoops(d int) string {
 var failingCores = []string{
 	"(undefinedFn 1)", "undefinedSym", "(+ 1 \"a\")", "(aget [1 2] 7)", "(assert false)", "(hget (hash a: 1) zz:)",
 	"(first 3)", "(let)", "(for [])", "(cond 1 2)", "(/ 1 0)", "(def)", "((fn [a] a))", "(hset 3 a: 1)", "(fn)", "(str2sym 5)",
-	"(let [a] 1)", "(continue nosuch:)", "(mdef a)", "(aget 5 0)", "(hf)",
+	"(let [a] 1)", "(continue nosuch:)", "(mdef a)", "(aget 5 0)", "(hf)", "(quote 1 2)", "(quote)",
 }
 
 func (g *progGen) failingForm() string {
@@ -620,6 +645,12 @@ var declForms = []string{
 	"(def ar%d [1 2 3]) { ar%d[1] = 9 } (aget ar%d 1)",
 	"(def st%d \"abc\") (len (concat st%d \"d\"))",
 	"(macexpand (++ zc%d))",
+	"(def aq%d [1 2 3]) { aq%d[1] = 9; 5 }",
+	"(def aq%d [1 2 3]) (begin { aq%d[0] = 7 } (aget aq%d 0))",
+	"(def hq%d (hash a: 1)) { hq%d.a = 2; hq%d.a }",
+	"(for [(def i 0) (< i 3) (def i (+ i 1))] (let [z i] (and (== z 1) (continue) 1)))",
+	"(for [(def i 0) (< i 3) (def i (+ i 1))] (let [z i] (or (< z 1) (break) 1)))",
+	"(defn lt%d [n] (let [m (lt2%d n)] m)) (defn lt2%d [n] (+ n 1)) (lt%d 3)",
 	"(def zc%d 1) (++ zc%d) (+= zc%d 2) zc%d",
 }
 
